@@ -53,7 +53,7 @@ PROPS = {
     },
     'C10': {
         'level': 'exploration',
-        'strata': [('label-histories', 'labels', 0.6), ('mixed-histories', 'container', 0.2), ('small-spans-systematic', 'labels_sys', 0.1), ('label-access-inside-hooks', 'solver_labels', 0.1)],
+        'strata': [('label-histories', 'labels', 0.55), ('mixed-histories', 'container', 0.2), ('small-spans-systematic', 'labels_sys', 0.1), ('label-access-inside-hooks', 'solver_labels', 0.1), ('labelled-terms-in-generated-code', 'frame_labels', 0.05)],
         'quick': 16000,
         'thorough': 300000,
     },
